@@ -42,6 +42,24 @@ def run(ctx):
     rj = ctx.validate(fam, "Shard_Trace", "Shard_Trace.cfg", route, label="routing", chunk=12000)
     rj += ctx.validate(fam, "Shard_Trace", "Shard_Trace.cfg", maps, label="containers", chunk=30000)
     rj += ctx.validate(fam, "Shard_Trace", "Shard_Trace.cfg", races, label="races", chunk=20000)
+    # sharded key lockers and semaphore maps must answer lock requests as the unsharded ones: the
+    # schedules of C02 / C01 are replayed on the sharded variants only and judged by their trace specs
+    # (KeyLockObs / Semap_Trace are the unsharded structures' contracts)
+    b02 = ctx.go_build("c02")
+    ctx.harness(b02, ["-out", ctx.path("lk-steps.ndjson"), "-stress", ctx.path("lk-stress.ndjson"), "-seed", ctx.seed,
+                      "-rand", ctx.q(60, 800), "-nstress", ctx.q(4, 40), "-nprobe", ctx.q(4, 20),
+                      "-probepairs", ctx.q(40, 200), "-only", "g-,gx-"],
+                traces=[ctx.path("lk-steps.ndjson"), ctx.path("lk-stress.ndjson")])
+    lk = ctx.load_traces(ctx.path("lk-steps.ndjson")) + ctx.load_traces(ctx.path("lk-stress.ndjson"))
+    rj += ctx.validate("keylock", "KeyLockObs", "KeyLockObs.cfg", lk, label="sharded-lockers", chunk=20000)
+    b01 = ctx.go_build("c01")
+    ctx.harness(b01, ["-out", ctx.path("sm-steps.ndjson"), "-stress", ctx.path("sm-stress.ndjson"), "-seed", ctx.seed,
+                      "-rand", ctx.q(60, 800), "-nstress", 0, "-nbatch", ctx.q(60, 0), "-sharded"],
+                traces=[ctx.path("sm-steps.ndjson"), ctx.path("sm-stress.ndjson")])
+    sm = ctx.load_traces(ctx.path("sm-steps.ndjson"))
+    rj += ctx.validate("semap", "Semap_Trace", "Semap_Trace.cfg", sm, label="sharded-semaphores", chunk=20000)
+    ctx.extra["sharded_locker_traces"] = len(lk)
+    ctx.extra["sharded_semaphore_traces"] = len(sm)
     ctx.judge(rj)
     ctx.extra["plans"] = len(plans)
     ctx.extra["routing_traces"] = len(route)
@@ -62,7 +80,8 @@ def run(ctx):
         "race rounds: inv/res sequence numbers are drawn outside the containers (before the call, after its "
         "return), so the logged order is consistent with real time; TLC searches for a linearization",
         "wide LRU facades run with a capacity no history reaches (capacity per shard is C04's subject); "
-        "sharded key lockers / semaphore maps are exercised in C02 / C01",
+        "sharded key lockers / semaphore maps: the C02 / C01 schedules are replayed on the sharded variants "
+        "only and judged by KeyLockObs / Semap_Trace (the unsharded structures' contracts)",
     ]
     return ctx.finish(
         rule="routing: per shard count (fixed list 1,2,3,4,5,64,73,211,255,256,1000,4096,10007,65535,65536,100003 + default "
